@@ -529,7 +529,8 @@ def check_memo_keys(prog, run, rule_id="H2"):
     r = run.rule(rule_id, "every per-request memo table (try: return self.C[key] / except KeyError: compute and store) is keyed by "
                        "every parameter its computation depends on: a parameter used in the miss branch but absent from the key "
                        "makes two different requests share one entry; each key component stands for a whole parameter (the parameter, "
-                       "tuple()/id() of it, or the name of a named schema type), never for a lossy projection of it", 4)
+                       "tuple()/frozenset() of it, or the name of a named schema type), never for a lossy projection of it (id(), "
+                       "str(), len(), the class: see Z7)", 4)
     for modname, cname in ((WRAP, "ResolutionContext"), (EXE, "Executor")):
         cls = prog.get_class(modname, cname)
         for m, cache, key, handler in memo_sites(cls):
@@ -560,7 +561,7 @@ def check_memo_keys(prog, run, rule_id="H2"):
                         used.add(y.id)
             used_params = closure(used) & params
             r.instance("%s.%s: cache %s keyed by %s; miss branch uses %s" % (cname, m.name, cache, sorted(key_names), sorted(used_params)))
-            # every key component stands for the whole parameter: the parameter itself, tuple()/frozenset()/id() of it, or the
+            # every key component stands for the whole parameter: the parameter itself, tuple()/frozenset() of it, or the
             # `.name` of a parameter annotated as a named schema type (types are unique per name within one schema)
             key_expr = key
             if isinstance(key_expr, ast.Name):
@@ -583,7 +584,7 @@ def check_memo_keys(prog, run, rule_id="H2"):
                 names = {y.id for y in ast.walk(comp) if isinstance(y, ast.Name)} & params & direct
                 for pn in sorted(names):
                     lossless = (isinstance(comp, ast.Name) and comp.id == pn) or (
-                        isinstance(comp, ast.Call) and isinstance(comp.func, ast.Name) and comp.func.id in ("tuple", "frozenset", "id", "str")
+                        isinstance(comp, ast.Call) and isinstance(comp.func, ast.Name) and comp.func.id in ("tuple", "frozenset")
                         and len(comp.args) == 1 and isinstance(comp.args[0], ast.Name) and comp.args[0].id == pn) or (
                         isinstance(comp, ast.Attribute) and comp.attr == "name" and isinstance(comp.value, ast.Name) and comp.value.id == pn
                         and ann.get(pn, "").endswith("Type"))
